@@ -145,13 +145,14 @@ text("C17",
      "deterministic simulation with fault injection (seeded schedule perturbation + race detector + porcupine linearizability check of recorded histories)", "DESIGN.md 4 C17")
 
 add("C09", "exploration",
-    [{"name": "tube-isolation", "quick_s": 40, "thorough_s": 900}, {"name": "app-session-tubes", "quick_s": 12, "thorough_s": 300}],
+    [{"name": "tube-isolation", "quick_s": 40, "thorough_s": 900}, {"name": "app-session-tubes", "quick_s": 12, "thorough_s": 300},
+     {"name": "accept-backlog", "quick_s": 8, "thorough_s": 200}],
     real=["tubes (Muxer demultiplexing, id choice, reaping, Reliable, Unreliable, frames)",
           "app-session-tubes: hopclient.HopClient (NewHopClient, DialExternalAuthenticator, muxer construction, user authorization, HandleTubes), hopserver session code (newSession, start, newAuthGrantTube), transport client/server, userauth"],
     stub=["tube-isolation: transport session under the muxers (simulated MsgConn pair)",
           "app-session-tubes: the UDP socket of transport.DialWithDialer (VerifDial seam inserted by the build step), the server's delegate-proxy unix socket (not started), authorized_keys file system (in-memory fs.FS)"])
 text("C09",
-     "seeded concurrent open/write/close/reopen programs from both muxer roles (several opener workers per side, reliable and unreliable tubes of drawn types, far more opens than live tubes so identifiers are reused) under delay, reordering, duplication, loss and late-packet faults (long delays and verbatim late replays of up to several seconds); every tube INSTANCE has a unique tag and every 64-byte stream cell / every unreliable message carries tag, offset, id, reliability and type; oracle: everything an instance reads comes from exactly one instance on the other side with the same id and reliability (violations are attributed: cross-id, cross-reliability, stale-after-reuse/{reliable,unreliable}, own-data-echoed), Create returns identifiers of the muxer's parity that are not in use, accepted tubes have the peer's parity, Accept never returns more tubes of (id, reliability) than the peer opened (ghost), unreliable reads return exactly one written message (length, header and tail pattern). Second scenario (app-session-tubes): the real hop client logs in to the real hop server session code over the simulated network, then both applications open reliable tubes towards each other at (nearly) the same moment for several rounds (the server through its own newAuthGrantTube, the client as its window-size/exec code does), with loss, duplication, jitter and muxer yields; oracle: tubes alive at the same time in one session have distinct (reliability, id) identities whichever side opened them",
+     "seeded concurrent open/write/close/reopen programs from both muxer roles (several opener workers per side, reliable and unreliable tubes of drawn types, far more opens than live tubes so identifiers are reused) under delay, reordering, duplication, loss and late-packet faults (long delays and verbatim late replays of up to several seconds); every tube INSTANCE has a unique tag and every 64-byte stream cell / every unreliable message carries tag, offset, id, reliability and type; oracle: everything an instance reads comes from exactly one instance on the other side with the same id and reliability (violations are attributed: cross-id, cross-reliability, stale-after-reuse/{reliable,unreliable}, own-data-echoed), Create returns identifiers of the muxer's parity that are not in use, accepted tubes have the peer's parity, Accept never returns more tubes of (id, reliability) than the peer opened (ghost), unreliable reads return exactly one written message (length, header and tail pattern). Second scenario (app-session-tubes): the real hop client logs in to the real hop server session code over the simulated network, then both applications open reliable tubes towards each other at (nearly) the same moment for several rounds (the server through its own newAuthGrantTube, the client as its window-size/exec code does), with loss, duplication, jitter and muxer yields; oracle: tubes alive at the same time in one session have distinct (reliability, id) identities whichever side opened them. Third scenario (accept-backlog): one side opens 20..128 reliable and 0..100 unreliable tubes (around and beyond the muxer's accept queue of 128) before the other side calls Accept for the first time, under light loss/duplication; oracle: every tube whose opener saw it come up is returned by Accept exactly once with its identifier, reliability and type",
      TB, "deterministic simulation with fault injection (seeded reuse histories and late-packet schedules, instance-tag attribution oracle)", "DESIGN.md 4 C09")
 
 add("C04", "exploration",
